@@ -219,14 +219,15 @@ func (collection *linkCollectionImpl) CheckIntegrity(ctx MutateContext, fix bool
 
 	for idCursor := collection.field.GetStore().IterateValidIds(tx, ast.BoolNodeTrue); idCursor.IsValid(); idCursor.Next() {
 		id := idCursor.Current()
+		// links to remove are collected and removed once the cursor is done: deleting a row under a live bolt cursor can make
+		// the cursor skip the row after it
+		var invalidLinks [][]byte
 		for linkCursor := collection.IterateLinks(tx, id); linkCursor.IsValid(); linkCursor.Next() {
 			linkId := linkCursor.Current()
 			linkValid := collection.otherField.GetStore().IsEntityPresent(tx, string(linkId))
 			if !linkValid {
 				if fix {
-					if _, err := collection.RemoveLink(tx, id, linkId); err != nil {
-						return err
-					}
+					invalidLinks = append(invalidLinks, append([]byte(nil), linkId...))
 				}
 				err := errors.Errorf("%v %v references %v %v, which doesn't exist",
 					collection.field.GetStore().GetSingularEntityType(), string(id),
@@ -242,6 +243,11 @@ func (collection *linkCollectionImpl) CheckIntegrity(ctx MutateContext, fix bool
 					collection.field.GetStore().GetSingularEntityType(), string(id),
 					collection.otherField.GetStore().GetSingularEntityType(), string(linkId))
 				errorSink(err, fix)
+			}
+		}
+		for _, linkId := range invalidLinks {
+			if _, err := collection.RemoveLink(tx, id, linkId); err != nil {
+				return err
 			}
 		}
 	}
